@@ -203,8 +203,7 @@ pub static VTABLE_B: wasip3_task_vtable = wasip3_task_vtable {
     drop: t_drop::<1>,
 };
 
-pub fn new_v1(t: usize) -> wasip3_task {
-    let vt = if t == 0 { &VTABLE_A } else { &VTABLE_B };
+fn mk_v1(t: usize, vt: &'static wasip3_task_vtable) -> wasip3_task {
     wasip3_task {
         version: 1,
         ptr: task_ptr(t),
@@ -213,8 +212,7 @@ pub fn new_v1(t: usize) -> wasip3_task {
     }
 }
 
-pub fn new_v2(t: usize) -> wasip3_task_v2 {
-    let vt = if t == 0 { &VTABLE_A } else { &VTABLE_B };
+fn mk_v2(t: usize, vt: &'static wasip3_task_vtable) -> wasip3_task_v2 {
     wasip3_task_v2 {
         v1: wasip3_task {
             version: 2,
@@ -224,6 +222,22 @@ pub fn new_v2(t: usize) -> wasip3_task_v2 {
         },
         vtable: vt,
     }
+}
+
+// Separate constructors per task so that a single-task harness never
+// references task B's functions (CBMC turns every indirect call into a switch
+// over all address-taken functions of that signature).
+pub fn new_v1_a() -> wasip3_task {
+    mk_v1(0, &VTABLE_A)
+}
+pub fn new_v2_a() -> wasip3_task_v2 {
+    mk_v2(0, &VTABLE_A)
+}
+pub fn new_v1_b() -> wasip3_task {
+    mk_v1(1, &VTABLE_B)
+}
+pub fn new_v2_b() -> wasip3_task_v2 {
+    mk_v2(1, &VTABLE_B)
 }
 
 /// Replacement for `cabi::wasip3_task_set` (a weak C symbol on wasm, an
